@@ -392,10 +392,10 @@ func invoke(input OmegaInput) (output OmegaOutput) {
 	// mu* = mu
 	encoder := types.NewEncoder()
 	data = types.ByteSequence(make([]byte, offset))
-	encoded, _ := encoder.Encode(&tempHost.Interpreter.Gas) // encode g'
+	encoded, _ := encoder.EncodeUintWithLength(uint64(tempHost.Interpreter.Gas), 8) // E_8(g')
 	copy(data, encoded)
 	for i := uint64(1); i < offset/8; i++ {
-		encoded, _ := encoder.Encode(&tempHost.Interpreter.Registers[i-1])
+		encoded, _ := encoder.EncodeUintWithLength(tempHost.Interpreter.Registers[i-1], 8) // E_8(w'_i)
 		copy(data[8*i:8*(i+1)], encoded)
 	}
 	// write data into memory (mu)
